@@ -7,7 +7,8 @@ ID = 'C14'
 COQ_TARGETS = ['Props/Properties_C14.vo', 'Proofs/CheckerProofs.vo']
 PROPS_FILES = ['Props/Properties_C14.v']
 THEOREMS = ['C14_domain', 'C14_domain_exact', 'C14_local', 'C14_local_refuted', 'C14_local_partial',
-            'C14_parseaddr', 'C14_addrsyntax', 'C14_addrparse', 'C14_xtext', 'C14_safe', 'C14_writes', 'C14_oracle_ref', 'C14_char_sign_independent']
+            'C14_parseaddr', 'C14_addrsyntax', 'C14_addrparse', 'C14_xtext', 'C14_safe', 'C14_writes', 'C14_oracle_ref', 'C14_char_sign_independent',
+            'C14_domain_rfc', 'C14_local_iff', 'C14_parseaddr_iff', 'C14_addrsyntax_iff', 'C14_xtext_iff', 'C14_ipv4_literal', 'C14_ipv6_literal']
 ENGINES = [dict(name='addr', c_sources=['addr_h.c'], extract='Extract/Extract_addr.v', driver='addr_driver.ml',
                 glue=('glue.ml', 'glue_z.ml'), accepts=lambda c: c[:2] in ('d0', 'd1', 'd2', 'd3', 'd4', 'd5', 'd6'))]
 RULE = ('cases = arguments of domainvalid / parselocalpart / parseaddr+checkaddr+addrspec_valid / addrsyntax (flags 0,1,2) / xtextlen / '
